@@ -49,6 +49,7 @@ def main(argv):
                 if prop != "C13":   # C13's worlds under other hash seeds are part of the check, not of the harness self-test
                     env["VERIF_NO_FRESH"] = "1"
                 env.pop("PYTHONHASHSEED", None)
+                env.setdefault("VERIF_SHRINK_WALL_S", "300")
                 t0 = time.time()
                 tier = os.environ.get("SENS_TIER", "quick")
                 r = sh([PY, os.path.join(VERIF, "sim", "cli.py"), "check", prop, "--tier", tier], env=env, cwd=VERIF)
